@@ -47,7 +47,7 @@ class FanOut:
             if isinstance(ev, Loop) and self.loop_match is not None and self.loop_match(ev) is not None:
                 k = self.loop_match(ev)
                 recv = ev.self_obj
-                if isinstance(recv, Obj) and self.receiver_ok(recv, loopvars):
+                if isinstance(recv, Obj) and self.receiver_ok(recv, loopvars, innermost=False):
                     add_seq(total, {k: {1}})
                 else:
                     self.irregular.append(ev)
@@ -96,7 +96,14 @@ class FanOut:
                         add_seq(total, {k: {-1}})
         return total
 
-    def receiver_ok(self, recv, loopvars):
+    def receiver_ok(self, recv, loopvars, innermost=True):
+        if not innermost:
+            # step loops counted as one event of their frame's self (R18.1): the frame's self may legitimately be the element of an
+            # outer loop while tables of bound methods are iterated inside (refactorings B7_19, B8_12)
+            for lp in reversed(loopvars):
+                if isinstance(lp.var, Obj) and lp.var == recv:
+                    return True
+            return "[*" not in recv.name and not recv.name.startswith("new")
         # receiver is the element variable of the innermost enclosing loop over its class's container, or a singleton path
         # An event on the element of an *outer* loop (or on a singleton) that sits inside a further loop over a model collection
         # is applied once per element of that inner collection -- 0, 1 or many times per object, not once (seed C08-k).
